@@ -169,3 +169,26 @@ Proof.
   apply (C01_trie_memory_end_to_end array cfg N V t pz (M_of (unigrams ++ concat higher)) K HN HV Hc
            (load_trie_inv N unigrams higher up t HN Hl Hw Hload) (load_trie_nodup N up unigrams higher t HN Hnd Hload) Hd Hr Hneg Hlong Hs ctx w Hwv).
 Qed.
+
+(* ... and from the FILE: the memory the trie loader sets up over the bytes of the binary file the model writes (C04/TrieParse.v parse_trie =
+   TrieSearch::SetupMemory on the mapped search region, positioned by the Size() functions of the header's counts; the region is found by
+   the loader at the offset C04_trie_file_loads_back proves) is the memory that was built (C04_loaded_memory_is_built_memory), so the
+   probability computed from the loaded file is the ARPA recursion's -- whatever bytes (`rest`: the vocabulary strings) follow the region. *)
+From Kenlm Require Import LM.TableExt C03.TrieImage C04.FileImage C04.TrieParse C04.TrieParseEnd.
+Corollary C01_trie_file_end_to_end : forall (array : bool) cfg N V (t : atable) pz M K rest,
+  (2 <= N)%nat -> 0 <= V < 2 ^ 32 -> 0 <= cfg -> TInv N (alookup t) M -> NoDup (map fst t) ->
+  (forall w, alookup t [w] <> None <-> Z.of_N w < V) ->
+  (forall k e, alookup t k = Some e -> - 2 ^ 24 < e_prob e < 2 ^ 24 /\ - 2 ^ 24 < e_bo e < 2 ^ 24) ->
+  (forall k e, alookup t k = Some e -> (2 <= length k)%nat -> e_prob e <= 0) ->
+  (forall k e, alookup t k = Some e -> length k = N -> e_bo e = 0) ->
+  Z.of_nat (N * length t) < 2 ^ 57 ->
+  forall ctx w, Z.of_N w < V ->
+  r_prob (fst (full_score_forgot N (file_table array cfg N V (trie_counts N t) (trie_image array cfg N t pz ++ rest)) K ctx w)) = bo_score N M ctx w.
+Proof.
+  intros array cfg N V t pz M K rest HN HV Hc Inv Hnd Hd Hr Hneg Hl Hs ctx w Hw.
+  rewrite <- (C01_trie_memory_end_to_end array cfg N V t pz M K HN HV Hc Inv Hnd Hd Hr Hneg Hl Hs ctx w Hw).
+  f_equal. f_equal.
+  destruct (same_table_same_answers N (file_table array cfg N V (trie_counts N t) (trie_image array cfg N t pz ++ rest)) (mem_table array cfg N V t pz)
+              K null_state w ctx (fun k => file_table_is_mem_table array cfg N V t pz M HN HV Hc Inv Hnd Hd Hr Hs rest k)) as [_ [E _]].
+  exact E.
+Qed.
